@@ -12,19 +12,24 @@ open CueVerif.Quote (Bytes)
 theorem visible_ne_plain_of_ne_lib (d : Decision) (libq : Bool) (h : d ≠ .lib) : d.visible libq ≠ .plain := by
   cases d <;> simp_all [Decision.visible]
 
-theorem quoteScalar_ne_lib (lx : Lex) (s : Bytes) (h : needsSingleQuoting s = true ∨ shouldQuote lx s = true) :
-    quoteScalar lx s ≠ .lib := by
+theorem shouldQuote_of_core (P : IsPrint) (lx : Lex) (s : Bytes) (h : shouldQuoteCore lx s = true) :
+    shouldQuote P lx s = true := by simp [shouldQuote, h]
+
+theorem quoteScalar_ne_lib (P : IsPrint) (lx : Lex) (s : Bytes)
+    (h : needsSingleQuoting s = true ∨ shouldQuoteCore lx s = true) : quoteScalar P lx s ≠ .lib := by
   unfold quoteScalar
   split
   · simp
-  · have : (shouldQuote lx s || needsSingleQuoting s) = true := by
-      rcases h with h | h <;> simp [h]
+  · have : (shouldQuote P lx s || needsSingleQuoting s) = true := by
+      rcases h with h | h
+      · simp [h]
+      · simp [shouldQuote_of_core P lx s h]
     simp [this]
 
-theorem quoted_of (lx : Lex) (s : Bytes) (h : needsSingleQuoting s = true ∨ shouldQuote lx s = true) :
+theorem quoted_of (lx : Lex) (s : Bytes) (h : needsSingleQuoting s = true ∨ shouldQuoteCore lx s = true) :
     Quoted lx s := by
-  intro libq multi
-  have hq := quoteScalar_ne_lib lx s h
+  intro P libq multi
+  have hq := quoteScalar_ne_lib P lx s h
   constructor
   · apply visible_ne_plain_of_ne_lib
     unfold valueDecision
@@ -50,9 +55,9 @@ def allLex : List Lex :=
 theorem mem_allLex (lx : Lex) : lx ∈ allLex := by
   cases lx with | mk a t c => cases a <;> cases t <;> cases c <;> decide
 
-theorem boolWords_all : boolWords.all (fun s => allLex.all fun lx => shouldQuote lx s) = true := by decide
+theorem boolWords_all : boolWords.all (fun s => allLex.all fun lx => shouldQuoteCore lx s) = true := by decide
 
-theorem boolWords_quoted (s : Bytes) (hs : s ∈ boolWords) (lx : Lex) : shouldQuote lx s = true := by
+theorem boolWords_quoted (s : Bytes) (hs : s ∈ boolWords) (lx : Lex) : shouldQuoteCore lx s = true := by
   have h := boolWords_all
   rw [List.all_eq_true] at h
   have h2 := h s hs
@@ -64,10 +69,10 @@ def coreTypedB (lx : Lex) (s : Bytes) : Bool :=
   lx.single && (lx.ty == coreTok s || (lx.ty == .str && lx.same && (specialFloat s).isSome))
 
 theorem coreWords_all : coreWords.all (fun s => allLex.all fun lx =>
-    !coreTypedB lx s || needsSingleQuoting s || shouldQuote lx s) = true := by decide
+    !coreTypedB lx s || needsSingleQuoting s || shouldQuoteCore lx s) = true := by decide
 
 theorem coreWords_quoted (s : Bytes) (hs : s ∈ coreWords) (lx : Lex) (h : CoreTyped lx s) :
-    needsSingleQuoting s = true ∨ shouldQuote lx s = true := by
+    needsSingleQuoting s = true ∨ shouldQuoteCore lx s = true := by
   have h0 := coreWords_all
   rw [List.all_eq_true] at h0
   have h2 := h0 s hs
@@ -104,19 +109,19 @@ theorem specialFloat_start (c : Nat) (t : Bytes) (h : (specialFloat (c :: t)).is
 theorem lib_of_plain (d : Decision) (libq : Bool) (h : d.visible libq = .plain) : d = .lib ∧ libq = false := by
   cases d <;> cases libq <;> simp_all [Decision.visible]
 
-theorem quoteScalar_lib (lx : Lex) (s : Bytes) (h : quoteScalar lx s = .lib) :
-    needsSingleQuoting s = false ∧ shouldQuote lx s = false := by
+theorem quoteScalar_lib (P : IsPrint) (lx : Lex) (s : Bytes) (h : quoteScalar P lx s = .lib) :
+    needsSingleQuoting s = false ∧ shouldQuoteCore lx s = false := by
   unfold quoteScalar at h
   split at h
   · simp at h
   · split at h
     · simp at h
     · rename_i h2
-      simp only [Bool.or_eq_true, not_or, Bool.not_eq_true] at h2
-      exact ⟨h2.2, h2.1⟩
+      simp only [shouldQuote, Bool.or_eq_true, not_or, Bool.not_eq_true] at h2
+      exact ⟨h2.2, h2.1.1⟩
 
-theorem valueDecision_lib (lx : Lex) (s : Bytes) (multi : Bool) (h : valueDecision lx s multi = .lib) :
-    quoteScalar lx s = .lib := by
+theorem valueDecision_lib (P : IsPrint) (lx : Lex) (s : Bytes) (multi : Bool)
+    (h : valueDecision P lx s multi = .lib) : quoteScalar P lx s = .lib := by
   unfold valueDecision at h
   split at h
   · split at h <;> simp at h
@@ -124,7 +129,8 @@ theorem valueDecision_lib (lx : Lex) (s : Bytes) (multi : Bool) (h : valueDecisi
     · simp at h
     · exact h
 
-theorem keyDecision_lib (lx : Lex) (s : Bytes) (h : keyDecision lx s = .lib) : quoteScalar lx s = .lib := by
+theorem keyDecision_lib (P : IsPrint) (lx : Lex) (s : Bytes) (h : keyDecision P lx s = .lib) :
+    quoteScalar P lx s = .lib := by
   unfold keyDecision at h
   split at h
   · rename_i heq; exact heq
@@ -137,22 +143,22 @@ theorem decode_str_of_not_quoted (lx : Lex) (s : Bytes)
     (hty : lx.ty = .str ∨ lx.ty.nonString = true)
     (hstart : ∀ c t, s = c :: t → nonStringStarts.contains c = false → lx.same = true →
       lx.ty.nonString = false)
-    (hq : shouldQuote lx s = false) : decodeScalar lx.ty s = .str s := by
+    (hq : shouldQuoteCore lx s = false) : decodeScalar lx.ty s = .str s := by
   cases s with
-  | nil => simp [shouldQuote] at hq
+  | nil => simp [shouldQuoteCore] at hq
   | cons c t =>
     -- the decoder-side facts we need: no special float, not a number
     have key : lx.ty = .str ∧ (specialFloat (c :: t)).isSome = false ∧ numberKind (c :: t) = .illegal := by
       by_cases hc : nonStringStarts.contains c = true
       · -- the encoder consulted the lexer
         have hd : decodesAsNonString lx (c :: t) = false := by
-          unfold shouldQuote at hq
+          unfold shouldQuoteCore at hq
           simp only at hq
           split at hq
           · simp at hq
           · split at hq
             · simp at hq
-            · simp only [Bool.or_eq_false_iff] at hq; exact hq.1.1
+            · simp only [Bool.or_eq_false_iff] at hq; exact hq.1
         unfold decodesAsNonString at hd
         simp only [hc, hsingle, Bool.not_true, Bool.false_eq_true, ↓reduceIte] at hd
         rcases hty with hty | hty
@@ -197,11 +203,11 @@ theorem decode_str_of_not_quoted (lx : Lex) (s : Bytes)
 /-! ### numbers are quoted -/
 
 theorem shouldQuote_of_number (lx : Lex) (s : Bytes) (hn : numberKind s ≠ .illegal) (hl : LexScalar lx) :
-    shouldQuote lx s = true := by
+    shouldQuoteCore lx s = true := by
   obtain ⟨c, t, he, hc⟩ := numberKind_start_nonString s hn
   subst he
   obtain ⟨hs, hty⟩ := hl
-  unfold shouldQuote
+  unfold shouldQuoteCore
   simp only
   split
   · rfl
@@ -221,7 +227,7 @@ theorem shouldQuote_of_number (lx : Lex) (s : Bytes) (hn : numberKind s ≠ .ill
 
 /-- the byte pre-filter in front of the two regexps never changes their verdict -/
 theorem shouldQuote_of_regexp (lx : Lex) (s : Bytes)
-    (h : reUseQuote.matches s = true ∨ reAnyOctal.matches s = true) : shouldQuote lx s = true := by
+    (h : reUseQuote.matches s = true ∨ reAnyOctal.matches s = true) : shouldQuoteCore lx s = true := by
   cases s with
   | nil => rfl
   | cons c t =>
@@ -229,13 +235,58 @@ theorem shouldQuote_of_regexp (lx : Lex) (s : Bytes)
       rcases h with h | h
       · exact useQuote_first c t h
       · exact anyOctal_first c t h
-    unfold shouldQuote
+    unfold shouldQuoteCore
     simp only
     split
     · rfl
     · have : (reUseQuote.matches (c :: t) || reAnyOctal.matches (c :: t)) = true := by
         rcases h with h | h <;> simp [h]
       rw [if_pos (by rw [hc, this]; rfl)]
+
+/-! ### single quotes and the library never see what needs escaping -/
+
+theorem quoteScalar_single (P : IsPrint) (lx : Lex) (s : Bytes) (h : quoteScalar P lx s = .single) :
+    yamlUnprintable P s = false ∧ s.contains 10 = false := by
+  unfold quoteScalar at h
+  split at h
+  · rename_i hc
+    simp only [Bool.and_eq_true, Bool.not_eq_true'] at hc
+    exact ⟨hc.1.2, hc.2⟩
+  · split at h <;> simp at h
+
+theorem blockLiteralSafe_printable (P : IsPrint) (s : Bytes) (h : blockLiteralSafe P s = true) :
+    yamlUnprintable P s = false := by
+  unfold blockLiteralSafe at h
+  split at h
+  · simp at h
+  · split at h
+    · simp at h
+    · split at h
+      · simp at h
+      · split at h
+        · simp at h
+        · split at h
+          · simp at h
+          · simpa using h
+
+theorem quoteScalar_unprintable (P : IsPrint) (lx : Lex) (s : Bytes) (h : yamlUnprintable P s = true) :
+    quoteScalar P lx s = .double := by
+  unfold quoteScalar
+  simp [h, shouldQuote]
+
+theorem valueDecision_unprintable (P : IsPrint) (lx : Lex) (s : Bytes) (multi : Bool)
+    (h : yamlUnprintable P s = true) : valueDecision P lx s multi = .double := by
+  have hb : blockLiteralSafe P s = false := by
+    cases hv : blockLiteralSafe P s with
+    | false => rfl
+    | true => rw [blockLiteralSafe_printable P s hv] at h; cases h
+  unfold valueDecision
+  simp [hb, quoteScalar_unprintable P lx s h]
+
+theorem keyDecision_unprintable (P : IsPrint) (lx : Lex) (s : Bytes)
+    (h : yamlUnprintable P s = true) : keyDecision P lx s = .double := by
+  unfold keyDecision
+  rw [quoteScalar_unprintable P lx s h]
 
 /-! ### escapes -/
 
@@ -254,13 +305,14 @@ theorem go_escape_is_yaml_escape (l : Nat) (e : Esc) (h : goEscape l = some e) :
 
 /-! ### literal blocks: the two witnesses of the defect repaired by /repo 05f5435 -/
 
-theorem block_lone_newline : blockLiteralSafeOld [10] = true ∧
+theorem block_lone_newline : blockLiteralSafeOld asciiPrint [10] = true ∧
     parseBlock (emitBlock 2 [10]).1 (emitBlock 2 [10]).2 = [] := by decide
 
-theorem block_blank_then_indented : blockLiteralSafeOld (b "\n a") = true ∧
+theorem block_blank_then_indented : blockLiteralSafeOld asciiPrint (b "\n a") = true ∧
     parseBlock (emitBlock 2 (b "\n a")).1 (emitBlock 2 (b "\n a")).2 = b "\na" := by decide
 
-theorem block_rejects_witnesses : blockLiteralSafe [10] = false ∧ blockLiteralSafe (b "\n a") = false ∧
-    blockLiteralSafe (b "\n\n") = false := by decide
+theorem block_rejects_witnesses (P : IsPrint) : blockLiteralSafe P [10] = false ∧
+    blockLiteralSafe P (b "\n a") = false ∧ blockLiteralSafe P (b "\n\n") = false := by
+  refine ⟨rfl, rfl, rfl⟩
 
 end CueVerif.Yaml
